@@ -848,7 +848,7 @@ impl Arena {
         Freelist::Optimistic => match self.alloc_slow_path_optimistic(size) {
           Ok(bytes) => return Ok(Some(bytes)),
           Err(e) => {
-            if i == self.max_retries - 1 {
+            if i + 1 >= self.max_retries {
               return Err(e);
             }
           }
@@ -856,7 +856,7 @@ impl Arena {
         Freelist::Pessimistic => match self.alloc_slow_path_pessimistic(size) {
           Ok(bytes) => return Ok(Some(bytes)),
           Err(e) => {
-            if i == self.max_retries - 1 {
+            if i + 1 >= self.max_retries {
               return Err(e);
             }
           }
@@ -1004,7 +1004,7 @@ impl Arena {
               return Ok(Some(bytes));
             }
             Err(e) => {
-              if i == self.max_retries - 1 {
+              if i + 1 >= self.max_retries {
                 return Err(e);
               }
             }
@@ -1017,7 +1017,7 @@ impl Arena {
               return Ok(Some(bytes));
             }
             Err(e) => {
-              if i == self.max_retries - 1 {
+              if i + 1 >= self.max_retries {
                 return Err(e);
               }
             }
@@ -1158,7 +1158,7 @@ impl Arena {
             return Ok(Some(allocated));
           }
           Err(e) => {
-            if i == self.max_retries - 1 {
+            if i + 1 >= self.max_retries {
               return Err(e);
             }
           }
@@ -1169,7 +1169,7 @@ impl Arena {
             return Ok(Some(allocated));
           }
           Err(e) => {
-            if i == self.max_retries - 1 {
+            if i + 1 >= self.max_retries {
               return Err(e);
             }
           }
